@@ -112,7 +112,7 @@ Definition resolve (d : db) (o : op) (x : out) : list wop :=
   | RemoveLabel _ m id l, _ => if sp_match d m id then [WRemL id l] else []
   | InsertTriple _ t, _ => [WInsT t]
   | DeleteTriple _ t, _ => [WDelT t]
-  | DbDeleteNode n, _ => [WDelNode n false]
+  | DbDeleteNode n, _ => [WDelNode n true]     (* GrafeoDB::delete_node detaches (documented; code since 109e5bf) *)
   | DbSetProp n k v, _ => [WSet n k v]
   | DbRemoveProp n k, _ => [WUnset n k]
   | DbAddLabel n l, _ => [WAddL n l]
